@@ -23,7 +23,7 @@ LEVEL = "model_checking"
 SHARDS = 4
 RULE = (
     "all ordered forests with <= N nodes (node = scope construct or probe message) x full product of "
-    "labels: construct in 8 kinds, re-entry target k in {0,1,2}, exit in {fall through, Exception / "
+    "labels: construct in 10 kinds (incl. context()/run() of an already finished action), re-entry target k in {0,1,2}, exit in {fall through, Exception / "
     "BaseException caught here, Exception / BaseException propagating to the top}; states = distinct reference context stacks reached (as "
     "tuples of construct kinds), transitions = scope entries + exits executed; non-trivial = tree with "
     "nesting depth >= 2 or a raise"
@@ -33,10 +33,11 @@ ASSUMPTIONS = [
     "trees up to the node bound",
 ]
 
-KINDS = ["with", "context", "run", "re-context", "re-run", "start_task", "generator-close", "generator-context-close"]
+KINDS = ["with", "context", "run", "re-context", "re-run", "start_task", "generator-close", "generator-context-close",
+         "context-of-finished-action", "run-of-finished-action"]
 # exit: 0 fall through, 1 Exception caught right outside, 2 Exception propagating to the top,
 #       3 BaseException caught right outside, 4 BaseException propagating to the top
-SCHEMA = {"m": [], "a": [("c", 8), ("k", 3), ("exit", 5)]}
+SCHEMA = {"m": [], "a": [("c", 10), ("k", 3), ("exit", 5)]}
 
 
 def BOUNDS(tier):
@@ -246,6 +247,16 @@ def run_case(prog):
                     raise
                 else:
                     a.finish()
+            elif c in (8, 9):
+                # the action's end message is already written; its context can still be entered
+                # (e.g. callbacks that run later) and what is started there is still its child
+                a = new_action()
+                a.finish()
+                if c == 8:
+                    with a.context():
+                        inside(s, a, kind)
+                else:
+                    a.run(lambda: inside(s, a, kind))
             elif c == 3:
                 a = stack[-1 - s[1].get("k", 0)][0]
                 with a.context():
